@@ -25,7 +25,9 @@ type Pager struct {
 func canonURL(u *nurl.URL) string {
 	// the escaped path: /a%2Fb and /a/b are different resources
 	p := rxPctHex.ReplaceAllStringFunc(u.EscapedPath(), strings.ToUpper)
-	p = strings.TrimRight(p, "/")
+	if u.RawQuery == "" {
+		p = strings.TrimRight(p, "/") // /a/ and /a are taken for the same page; /a/?x and /a?x are not
+	}
 	return strings.ToLower(u.Scheme) + "://" + strings.ToLower(u.Host) + "|" + p + "|" + u.RawQuery
 }
 
@@ -50,7 +52,7 @@ func fillerWords(r *RNG, n int) string {
 // ---------------------------------------------------------------------------
 // conventional pagers
 
-var pagerFamilies = []string{"query", "query2", "path", "path2", "suffix", "suffix2", "dated-suffix", "dated-page"}
+var pagerFamilies = []string{"query", "query2", "path", "path2", "suffix", "suffix2", "dated-suffix", "dated-page", "dir-html", "slash-query"}
 
 var pagerOrigins = []string{"http://example.com", "https://example.com", "http://mirror.example.org", "https://www.example.com:8443"}
 
@@ -75,6 +77,10 @@ func famPath(fam string, i int, slash bool) string {
 		return fmt.Sprintf("/story/2014/07/alpha-%d.html", i)
 	case "dated-page":
 		return fmt.Sprintf("/story/2014/07/alpha_Page%d.html", i)
+	case "dir-html": // every page in a directory of its own
+		return fmt.Sprintf("/story/%d/alpha.html", i)
+	case "slash-query": // the path ends with a slash, the page number is in the query
+		return fmt.Sprintf("/story/alpha/?page=%d", i)
 	default:
 		return fmt.Sprintf("/story/alpha_p%d.html", i)
 	}
@@ -105,6 +111,10 @@ func famHref(origin, fam string, i int, slash bool, form string) string {
 			return fmt.Sprintf("alpha-%d.html", i)
 		case "dated-page":
 			return fmt.Sprintf("alpha_Page%d.html", i)
+		case "dir-html":
+			return fmt.Sprintf("../%d/alpha.html", i)
+		case "slash-query":
+			return fmt.Sprintf("?page=%d", i)
 		default:
 			return fmt.Sprintf("alpha_p%d.html", i)
 		}
@@ -129,6 +139,7 @@ type pagerSpec struct {
 	Origin   int
 	Base     int  // 0 /story/alpha..., 1 /articles/story... (a URL with a word the prev/next scorer dislikes)
 	Frag     bool // the page URL carries a #fragment
+	HostCase bool // absolute links write the host name with a capital letter
 }
 
 // rebase moves a family URL (absolute, root-relative or relative) to the other base path.
@@ -151,6 +162,12 @@ func conventionalPager(sp pagerSpec, r *RNG) *Pager {
 	}
 	page := mustURL(pg.PageURL)
 	famHref := func(origin, fam string, i int, slash bool, form string) string {
+		if sp.HostCase && form == "abs" {
+			// host names are case-insensitive
+			if j := strings.Index(origin, "://"); j > 0 {
+				origin = origin[:j+3] + strings.ToUpper(origin[j+3:j+4]) + origin[j+4:]
+			}
+		}
 		return sp.rebase(famHref(origin, fam, i, slash, form))
 	}
 	resolve := func(i int) string {
@@ -241,7 +258,8 @@ var hostilePages = []string{
 	"http://example.com/caf%C3%A9/article", "http://example.com/a%20b/story?page=2", "http://example.com/caf%C3%A9/article/page/2/", "http://example.com/story/alpha%2Fbeta?page=1",
 	"http://example.com", "http://example.com?page=2",
 	// page URLs that are not web addresses: no link can be "an absolute http(s) URL on the same host"
-	"/story/alpha/page/1", "http:///story/alpha/page/1", "file:///story/alpha/page/1", "story/alpha?page=1",
+	"/story/alpha/page/1", "http:///story/alpha/page/1", "file:///story/alpha/page/1", "story/alpha?page=1", "http://:80/story/alpha/page/2",
+	"http://example.com/search?q=news/", "http://example.com/search?q=news/#top",
 }
 
 func hostileHref(r *RNG, n int, u *nurl.URL) string {
@@ -319,7 +337,7 @@ func hostileHref(r *RNG, n int, u *nurl.URL) string {
 	}
 }
 
-const nHostileFams = 28
+const nHostileFams = 30
 
 func famHostile(fam, n int, u *nurl.URL) string {
 	host := u.Host
@@ -374,6 +392,10 @@ func famHostile(fam, n int, u *nurl.URL) string {
 	// reserved characters percent-encoded in the path: decoding them names another resource
 	// the page number in a middle path component: every page lives in a folder of its own,
 	// so the links lie outside the folder of the page URL
+	case 28: // an absolute link that is not fully escaped and has an escaped reserved character
+		return fmt.Sprintf("%s://%s/tag/AC%%2FDC/caf\u00e9 bar/page/%d", u.Scheme, host, n)
+	case 29: // the query of the first page ends with a slash
+		return fmt.Sprintf("/search?q=news/&page=%d", n)
 	case 26:
 		return fmt.Sprintf("/news/page/%d/index.html", n)
 	case 27:
